@@ -77,7 +77,7 @@ async def _run(case: dict) -> dict:
         back = {tok.persistent_id: tid for tid, tok in toks.items()}
         pg = ProvenanceGraph(context)
         try:
-            await asyncio.wait_for(pg.build_graph(inputs=[toks[i] for i in case["inputs"]]), 600)
+            await asyncio.wait_for(pg.build_graph(inputs=[toks[i] for i in case["inputs"]]), case.get("timeout", 120))
         except FailureHandlingException as e:
             return {"outcome": "noprev", "msg": str(e)[:120]}
         except asyncio.TimeoutError:
